@@ -6,24 +6,32 @@
 (* write lock or None.  A table access is a step that is enabled only when  *)
 (* the accessing process holds the lock the access needs.                   *)
 (***************************************************************************)
+(* The two tables are one relation (string <-> symbol <-> str object): a      *)
+(* writer that adds a symbol to one table adds it to the other in the SAME   *)
+(* critical section, so whenever the lock is free both tables agree          *)
+(* (AtomicPublish: wrote[p] records which tables p has written since it took *)
+(* the write lock; the lock can only be released with both or neither).      *)
 EXTENDS Naturals, FiniteSets
 CONSTANT Proc
-VARIABLES rc, writer
+VARIABLES rc, writer, wrote
 None == 0
 ASSUME None \notin Proc
 
-LInit == rc = [p \in Proc |-> 0] /\ writer = None
+Tables == {"symHashTable", "strTable"}
+LInit == rc = [p \in Proc |-> 0] /\ writer = None /\ wrote = [p \in Proc |-> {}]
 NoReaders == \A p \in Proc : rc[p] = 0
 
-RLock(p)   == writer = None /\ rc' = [rc EXCEPT ![p] = @ + 1] /\ UNCHANGED writer
-RUnlock(p) == rc[p] > 0 /\ rc' = [rc EXCEPT ![p] = @ - 1] /\ UNCHANGED writer
-WLock(p)   == writer = None /\ NoReaders /\ writer' = p /\ UNCHANGED rc
-WUnlock(p) == writer = p /\ writer' = None /\ UNCHANGED rc
+RLock(p)   == writer = None /\ rc' = [rc EXCEPT ![p] = @ + 1] /\ UNCHANGED <<writer, wrote>>
+RUnlock(p) == rc[p] > 0 /\ rc' = [rc EXCEPT ![p] = @ - 1] /\ UNCHANGED <<writer, wrote>>
+WLock(p)   == writer = None /\ NoReaders /\ writer' = p /\ wrote' = [wrote EXCEPT ![p] = {}] /\ UNCHANGED rc
+AtomicPublish(p) == wrote[p] \cap Tables \in {{}, Tables}
+WUnlock(p) == writer = p /\ AtomicPublish(p) /\ writer' = None /\ UNCHANGED <<rc, wrote>>
 
 CanRead(p)  == rc[p] > 0 \/ writer = p
 CanWrite(p) == writer = p
-Read(p)  == CanRead(p)  /\ UNCHANGED <<rc, writer>>
-Write(p) == CanWrite(p) /\ UNCHANGED <<rc, writer>>
+Read(p)  == CanRead(p)  /\ UNCHANGED <<rc, writer, wrote>>
+Write(p) == CanWrite(p) /\ UNCHANGED <<rc, writer, wrote>>
+WriteTab(p, tab) == CanWrite(p) /\ wrote' = [wrote EXCEPT ![p] = @ \cup {tab}] /\ UNCHANGED <<rc, writer>>
 
 (* the RWMutex guarantee, preserved by the four lock actions *)
 Exclusion == writer # None => NoReaders
